@@ -13,7 +13,7 @@ shuffle (legitimately shared state), entered with choose_path_string in its own 
 generated host script of continue / choose / continue_maximally operations (<= 4 per flow quick, <= 6 thorough). \
 For two flows ALL interleavings of the two scripts are enumerated (up to 70), for three flows interleavings are \
 sampled; variants add at interleaving points: switching away and straight back, switch_to_default_flow and back, \
-save -> fresh story -> load_state (once, or before every step), and remove_flow of a flow that has finished its script. Oracle: each flow's \
+save -> fresh story -> load_state (once, or before every step), remove_flow of a flow that has finished its script, and a variant in which the first script plays in the default flow while finished named flows are removed as the current flow (the story falls back to the default flow without a switch call). Oracle: each flow's \
 observations (lines, tags, choices, end) equal those of the same script run alone in a single-flow story, and \
 its globals end with the solo values. Cases whose solo run reports an error are discarded (an unhandled error \
 halts the whole story by design). Non-trivial = interleaving with >= 2 switches in which a flow is parked at a \
@@ -104,7 +104,8 @@ struct Solo {
 
 /// variant: 0 plain, 1 bounce (switch away and back before every op), 2 default-flow bounce,
 /// 3 save -> fresh story -> load at step `at`, 4 remove finished flows as soon as possible,
-/// 5 save -> fresh story -> load before EVERY step
+/// 5 save -> fresh story -> load before EVERY step, 6 flow 0 plays in the default flow and finished
+/// named flows are removed while current
 pub fn exec(case: &J, acc: &mut Acc) -> Result<(), Fail> {
     inflight(case);
     let (json_text, meta) = case_story(case)?;
@@ -201,7 +202,22 @@ pub fn exec(case: &J, acc: &mut Acc) -> Result<(), Fail> {
                     }
                 }
             }
-            if current != Some(f) || variant == 1 || variant == 2 {
+            if variant == 6 {
+                // flow 0 plays in the DEFAULT flow; a named flow that has finished its script is
+                // removed while it is the current one, which returns the story to the default
+                // flow without any switch call
+                if current != Some(f) {
+                    if f == 0 {
+                        if current.is_some() {
+                            h.apply(&HostOp::SwitchDefault);
+                        }
+                    } else {
+                        h.apply(&HostOp::SwitchFlow(FLOWS[f].to_string()));
+                    }
+                    switches += 1;
+                    current = Some(f);
+                }
+            } else if current != Some(f) || variant == 1 || variant == 2 {
                 if variant == 1 && current == Some(f) {
                     let other = (f + 1) % nflows;
                     if !removed[other] {
@@ -225,6 +241,11 @@ pub fn exec(case: &J, acc: &mut Acc) -> Result<(), Fail> {
             h.apply(&scripts[f][next[f]]);
             next[f] += 1;
             got[f].extend(story_obs(&h.trace[m..]));
+            if variant == 6 && f != 0 && next[f] >= scripts[f].len() && !removed[f] {
+                h.apply(&HostOp::RemoveFlow(FLOWS[f].to_string()));
+                removed[f] = true;
+                current = Some(0);
+            }
         }
         Ok::<_, String>((got, h.view().globals, h.fuel_exhausted(), switches))
     });
@@ -355,7 +376,7 @@ pub fn run(env: &Env) -> i32 {
                 let base = json!({"source": src, "entries": entries,
                     "scripts": scripts.iter().map(|s| ops_to_json(s)).collect::<Vec<_>>()});
                 for (oi, order) in orders.iter().enumerate() {
-                    for variant in 0..6u64 {
+                    for variant in 0..7u64 {
                         if variant != 0 && (oi + variant as usize) % 3 != 0 {
                             continue; // variants on a third of the interleavings each
                         }
